@@ -581,9 +581,10 @@ class Concatenator(Group):  # pylint: disable=too-many-public-methods
 
             self.update_array_attribute(entity, label)
 
-        elif label == "metadata" and not isinstance(entity, Data):
-            # A dictionary is not an array attribute: writing it as one leaves an
-            # index entry without data and the group can no longer be loaded.
+        elif not isinstance(entity, Data) and label not in PROPERTY_KWARGS:
+            # Only surveys and traces of concatenated objects are stored as arrays:
+            # writing anything else (metadata, vertices, cells) as one leaves an index
+            # entry without data and the group can no longer be loaded.
             self.update_concatenated_attributes(entity)
 
         else:
